@@ -296,7 +296,13 @@ fn queries(model: &IndexModel, rng: &mut Rng) -> Vec<(u32, u32, &'static str)> {
 }
 
 fn check_lookups(ctx: &mut Ctx, model: &IndexModel, idx: &SourceMapIndex, flat: Option<&SourceMap>, rng: &mut Rng) -> Result<(), Fail> {
-    for (l, c, what) in queries(model, rng) {
+    // the same object answers the catalogue in order and then again in shuffled order: an answer
+    // must not depend on which lookups came before it
+    let mut qs = queries(model, rng);
+    let mut again = qs.clone();
+    rng.shuffle(&mut again);
+    qs.extend(again);
+    for (l, c, what) in qs {
         ctx.op("SourceMapIndex::lookup_token");
         let want = ref_index_lookup(model, l, c);
         let got = idx.lookup_token(l, c).map(|t| (t.get_source().map(str::to_string), t.get_src_line(), t.get_src_col(), t.get_name().map(str::to_string)));
